@@ -29,6 +29,10 @@ CLAIMED["C27"] = dict(engine="E1", technique="CBMC function contracts with ghost
     text="Proof for all doubles (NaN and infinities included), all bounds and the three policies: each of the 6 scalar checks (plain and quantity overloads) and the 18 stensor<1|2|3> overloads throws iff out of bounds under Strict "
          "(reporting the first offending component), never throws and warns once per offending component under Warning, does nothing under None; bounds inclusive. 'Physical bounds are always strict' is a supporting static fact on the emitter text, not a proof.",
     note=TB_E1 + " The bodies of throw*/display* in src/Material/BoundsCheck.cxx are not under contract ([[noreturn]] trusted); message strings are dropped.")
+CLAIMED["C51"] = dict(engine="E1", technique="CBMC function contracts + loop contracts (inductive invariants with ghost row index and ghost failing-row witness) on extracted C text; the loop body is additionally verified loop-free as a row function; SMT (cvc5, FP theory) back end with SAT fall-back",
+    text="Proof over all doubles (NaN, infinities, signed zeros), all finite non-negative tolerances: for the Absolute, Relative, RelativeAndAbsolute and Mixed comparisons, success implies every row is finite and within tolerance and failure implies some row is not "
+         "(hence self-comparison of a finite column succeeds); MTest AnalyticalTest::check and ReferenceFileComparisonTest::check pass iff value and reference are finite and within eps. AreaComparison is excluded.",
+    note=TB_E1 + " Columns are is_fresh objects of at most 2^20 rows (the inductive loop argument does not depend on the bound); tolerance expressions are evaluated in the same double arithmetic as the code; message/log statements are deleted by must-fire rules.")
 
 NOT_APPLICABLE = {
     "C03": "floating-point tolerance statement about iterative eigen-solvers (Jacobi/QL/Cardano with cos/acos); no contract within reach of CBMC-C or the real-arithmetic VC generator expresses it",
